@@ -93,7 +93,9 @@ impl<P: SizedPayload> St<P> {
             OpK::Compare => self.op_compare(i, op[2], op[3]),
         }
         viol::set_ctx("");
-        self.check_all();
+        if !viol::any() {
+            self.check_all();
+        }
     }
 
     fn op_read(&mut self, i: usize) {
@@ -698,6 +700,23 @@ impl<P: SizedPayload> St<P> {
         let clones = tok::clones() - clones_before;
         let p = peek(&self.slots[i].h);
         let da = data_addr(&self.slots[i].h);
+        if !sole && !P::ZST {
+            // mutable access must not have been granted to the value the other owners still hold
+            let old = self.allocs[ai].val;
+            for (sj, s) in self.slots.iter().enumerate() {
+                if sj != i && s.alloc == ai {
+                    let q = peek(&s.h);
+                    if q.ok && q.val == newv && newv != old {
+                        viol::report(
+                            &["C08", "C03"],
+                            "W.write-through-shared",
+                            format!("{}: the value had {} owners, yet the write of {} is visible through slot {} ({:?}): mutable access was granted to a shared value", how, owners, newv, sj, s.h.kind()),
+                        );
+                        break;
+                    }
+                }
+            }
+        }
         if sole {
             self.facts.makemut_inplace = true;
             if clones != 0 {
@@ -754,6 +773,17 @@ impl<P: SizedPayload> St<P> {
                 let ni = self.allocs.len() - 1;
                 self.slots[i].alloc = ni;
                 self.released(ai, kind, false);
+                // the previous allocation must have lost exactly one owner
+                let expect = self.allocs[ai].owners as usize;
+                for (sj, s) in self.slots.iter().enumerate() {
+                    if sj != i && s.alloc == ai {
+                        for (n, c) in counts(&s.h) {
+                            if c != expect {
+                                viol::report(PW, "W.old-owners", format!("{}: afterwards {} on the previous allocation (slot {}, {:?}) reports {} but it must have lost exactly one owner ({} left)", how, n, sj, s.h.kind(), c, expect));
+                            }
+                        }
+                    }
+                }
                 // the copy must be solely owned
                 for (n, c) in counts(&self.slots[i].h) {
                     if c != 1 {
